@@ -9,8 +9,10 @@ from .. import canon, gen
 from ..core import call_real
 
 ID = "C12"
-LEAN_MODULE = "CKT.Props.C12Pass"
+LEAN_MODULE = "CKT.Props.C12Gen"
 THEOREMS = [
+    # the reset optimisations of the model are the translated source (harness/translate/resets.py -> Generated/ResetScans.lean)
+    "CKT.C12Gen.removeInitialGo_translated", "CKT.C12Gen.removeFinalGo_translated", "CKT.C12Gen.consolidateGo_translated", "CKT.C12Gen.passes_translated", "CKT.C12Gen.optimizeResets_translated",
     "CKT.C12.removeInitial_only", "CKT.C12.removeFinal_only", "CKT.C12.consolidate_only",
     "CKT.C12.passRemoveFinalReset_only", "CKT.C12.passConsolidateResets_only",
     "CKT.C12.removeInitial_wire", "CKT.C12.removeFinal_wire", "CKT.C12.consolidate_wire", "CKT.C12.WF_of_only",
@@ -121,6 +123,20 @@ def _nongate_cases():
             yield ("pass", {"nq": nq, "ncl": ncl, "prog": prog, "which": w, "always_oracle": True})
 
 
+def _gate_name_cases():
+    """seed-independent: a reset right after ONE gate of every one-qubit name of the standard library (short names such as `r`, `p`, `u`, `t`, `s`, `x`
+    included) and of some two-qubit names, on a qubit that nothing else has touched, with the other qubit idle or used later, measured afterwards"""
+    one = [("x", []), ("y", []), ("h", []), ("sx", []), ("sxdg", []), ("rx", [2.1]), ("ry", [2.1]), ("r", [3.141592653589793, 0.0]), ("r", [1.3, 0.4]),
+           ("u", [2.0, 0.3, 0.1]), ("u2", [0.3, 0.1]), ("u3", [2.0, 0.3, 0.1]), ("p", [0.7]), ("u1", [0.7]), ("t", []), ("s", []), ("z", []), ("id", [])]
+    for name, params in one:
+        g = _g(name, 0, params=params) if params else _g(name, 0)
+        yield ("pass", {"nq": 2, "ncl": 1, "prog": [g, _g("reset", 0), _m(0, 0)], "which": "initial", "always_oracle": True})
+        yield ("pass", {"nq": 2, "ncl": 2, "prog": [g, _g("reset", 0), _g("h", 1), _m(0, 0), _m(1, 1)], "which": "initial", "always_oracle": True})
+    for name, params in (("cx", []), ("swap", []), ("iswap", []), ("rxx", [1.1]), ("cp", [0.9]), ("ecr", [])):
+        g = _g(name, 1, 0, params=params) if params else _g(name, 1, 0)
+        yield ("pass", {"nq": 3, "ncl": 2, "prog": [_g("x", 1), g, _g("reset", 0), _g("reset", 1), _m(0, 0), _m(1, 1)], "which": "initial", "always_oracle": True})
+
+
 def _cf_cases():
     """seed-independent: control-flow operations (if / if-else / for / while) whose bodies contain resets -- at the end of the body, in
     the middle, doubled -- on qubits that are used again after the block or by the next iteration.  The model has no control flow:
@@ -181,8 +197,16 @@ def _edited_dag_cases():
             yield ("pass", {"nq": nq, "ncl": ncl, "prog": prog, "which": which, "pre": {"how": "front", "ops": ops}, "always_oracle": True})
 
 
+def regenerate():
+    """the three reset optimisations, translated from cutting_experiments.py on every run"""
+    from ..translate import resets
+    from ..core import REPO, LEAN
+    resets.regenerate(REPO, LEAN)
+
+
 def cases(rng, tier):
     yield from _nongate_cases()
+    yield from _gate_name_cases()
     yield from _cf_cases()
     yield from _edited_dag_cases()
     yield from _applied_cases(rng, tier)
